@@ -23,6 +23,9 @@ pub fn record_program(name: &str, src: &str, only: Option<&[String]>, trace: &mu
     };
     let mut results = serde_json::Map::new();
     let mut panicked = vec![];
+    // a third of the programs (chosen by their text, so that a replay takes the same way) are analysed through the
+    // entry point a user runs -- analyze_dir on a directory holding the file -- the others through analyze_for_*
+    let via_dir = src.bytes().fold(0xcbf29ce484222325u64, |h, b| (h ^ b as u64).wrapping_mul(0x100000001b3)) % 3 == 0;
     for d in all_detectors() {
         let n = d.name();
         if !PATTERN_DETECTORS.contains(&n.as_str()) {
@@ -33,7 +36,7 @@ pub fn record_program(name: &str, src: &str, only: Option<&[String]>, trace: &mu
                 continue;
             }
         }
-        match d.run(src) {
+        match d.run_entry(src, via_dir) {
             Ok(lines) => {
                 results.insert(n, json!(lines));
             }
@@ -41,7 +44,8 @@ pub fn record_program(name: &str, src: &str, only: Option<&[String]>, trace: &mu
         }
     }
     out.evaluations += 1;
-    let mut rec = json!({"k": "detect", "src": name, "tree": tree.to_json_with_lines(src), "results": Value::Object(results), "panicked": panicked});
+    let mut rec = json!({"k": "detect", "src": name, "tree": tree.to_json_with_lines(src), "results": Value::Object(results), "panicked": panicked,
+                         "entry": if via_dir { "dir" } else { "file" }});
     if name.starts_with("relayout:") {
         // re-laid-out texts are not kept elsewhere: a replay needs them
         rec["text"] = json!(src);
